@@ -53,7 +53,7 @@ import (
 func init() {
 	core.Register(&core.Monitor{
 		ID:            "C27",
-		Rule:          "PRNG transactions per era (quick 5000, thorough 300000 per era): 1-4 inputs and 1-4 outputs with coin and (Mary+) assets over policies {P1,P2,all-zero} x names {'',a,b}; 0-2 withdrawals; 0-3 certificates of every type the era has (stake reg/dereg/deleg, pool reg for new / already registered / repeated-in-tx pools, pool retire; Conway+: reg, unreg, vote / stake-vote deleg, the three reg+deleg forms, DRep reg / unreg / update), 0-2 proposals and a treasury donation (Conway+), mint / burn of 0-3 assets; outputs balanced under the true formula (1/3), under one of 17 wrong formulas (1/3), or true formula with one term moved by +-1 (1/3); plus 400 (thorough 20000) pure payments per era through the full rule list; a case is non-trivial when the transaction decodes; distinct by transaction bytes + ledger-state summary",
+		Rule:          "PRNG transactions per era (quick 5000, thorough 300000 per era): 1-4 inputs and 1-4 outputs with coin and (Mary+) assets over policies {P1,P2,all-zero} x names {'',a,b}; 0-2 withdrawals; 0-3 certificates of every type the era has (stake reg/dereg/deleg, pool reg for new / already registered / repeated-in-tx pools, pool retire; Conway+: reg, unreg, vote / stake-vote deleg, the three reg+deleg forms, DRep reg / unreg / update), 0-2 proposals and a treasury donation (Conway+), mint / burn of 0-3 assets; outputs balanced under the true formula (1/3), under one of 19 wrong formulas (1/3; among them 'tokens of the spent inputs not counted', all or one asset), or true formula with one term perturbed (1/3: moved by +-1, all / one output asset entry dropped, an asset nobody provides added to an output); plus 400 (thorough 20000) pure payments per era through the full rule list; a case is non-trivial when the transaction decodes; distinct by transaction bytes + ledger-state summary",
 		MinNontrivial: 20000,
 		Assumptions: []string{
 			"stated certificate / proposal deposits equal the protocol parameters in every generated case; registration and deregistration of the same credential never share a transaction",
@@ -197,7 +197,9 @@ const (
 	wBurnAsMint
 	wIgnoreMint
 	wRefundPoolRetire
-	nVariants = 17
+	wInputAssetsIgnored   // the tokens held by the spent inputs are not counted
+	wOneInputAssetIgnored // one of them (the first in policy / name order) is not counted
+	nVariants             = 19
 )
 
 var variantName = map[variant]string{
@@ -218,6 +220,8 @@ var variantName = map[variant]string{
 	wBurnAsMint:                "burn-counted-as-mint",
 	wIgnoreMint:                "mint-ignored",
 	wRefundPoolRetire:          "pool-retirement-refunded",
+	wInputAssetsIgnored:        "input-assets-ignored",
+	wOneInputAssetIgnored:      "one-input-asset-ignored",
 }
 
 func (v variant) names() []string {
@@ -238,9 +242,27 @@ func sides(d *desc, v variant) (cCoin, pCoin *big.Int, cAssets, pAssets holding)
 	u := func(x uint64) *big.Int { return new(big.Int).SetUint64(x) }
 	cCoin, pCoin = new(big.Int), new(big.Int)
 	cAssets, pAssets = holding{}, holding{}
+	var skip *asset
+	if v&wOneInputAssetIgnored != 0 {
+		all := holding{}
+		for _, in := range d.inputs {
+			for a, q := range in.assets {
+				all.add(a, q)
+			}
+		}
+		if ks := all.sortedKeys(); len(ks) > 0 {
+			skip = &ks[0]
+		}
+	}
 	for _, in := range d.inputs {
 		cCoin.Add(cCoin, u(in.coin))
+		if v&wInputAssetsIgnored != 0 {
+			continue
+		}
 		for a, q := range in.assets {
+			if skip != nil && a == *skip {
+				continue
+			}
 			cAssets.add(a, q)
 		}
 	}
@@ -411,11 +433,12 @@ func explainReject(d *desc, rerr error) variant {
 // ---------------------------------------------------------------- generation
 
 var (
-	payer    = lg.NewKey("payer")
-	polP1    = lg.Blake224([]byte("c27-policy-1"))
-	polP2    = lg.Blake224([]byte("c27-policy-2"))
-	policies = []lg.Hash28{polP1, polP2, zeroPolicy}
-	names    = []string{"", "a", "b"}
+	payer      = lg.NewKey("payer")
+	polP1      = lg.Blake224([]byte("c27-policy-1"))
+	polP2      = lg.Blake224([]byte("c27-policy-2"))
+	polPhantom = lg.Blake224([]byte("c27-policy-nobody-holds"))
+	policies   = []lg.Hash28{polP1, polP2, zeroPolicy}
+	names      = []string{"", "a", "b"}
 )
 
 func certKindsOf(e lg.Era) []certKind {
@@ -573,7 +596,7 @@ func generate(r *core.Rand, e lg.Era, w variant, pm1 bool, paymentOnly bool) (*d
 		label = "as-if:" + strings.Join(w.names(), "+")
 	}
 	if pm1 {
-		label = "off-by-one:" + perturb(r, d)
+		label = "perturbed:" + perturb(r, d)
 	}
 	return d, label
 }
@@ -650,6 +673,49 @@ func perturb(r *core.Rand, d *desc) string {
 				return false
 			}
 			return bump(d.donation)(up)
+		}})
+	}
+	// structural perturbations of the assets (Mary+): outputs lose all their
+	// tokens / one entry, or carry an asset that no input or mint provides
+	if d.era.HasMultiAsset() {
+		withAssets := []int{}
+		for i, out := range d.outputs {
+			if len(out.assets) > 0 {
+				withAssets = append(withAssets, i)
+			}
+		}
+		if len(withAssets) > 0 {
+			ops = append(ops, op{"all-output-assets-dropped", func(bool) bool {
+				for i := range d.outputs {
+					d.outputs[i].assets = holding{}
+				}
+				return true
+			}})
+			oi := core.Pick(r, withAssets)
+			ks := d.outputs[oi].assets.sortedKeys()
+			victim := core.Pick(r, ks)
+			ops = append(ops, op{"one-output-asset-entry-dropped", func(bool) bool {
+				delete(d.outputs[oi].assets, victim)
+				return true
+			}})
+		}
+		phantom := asset{core.Pick(r, []lg.Hash28{polP1, polP2, polPhantom, zeroPolicy}), core.Pick(r, []string{"", "a", "ghost"})}
+		qty := int64(1 + r.Intn(1000))
+		ops = append(ops, op{"unprovided-asset-in-output", func(bool) bool {
+			provided := holding{}
+			for _, in := range d.inputs {
+				for a, q := range in.assets {
+					provided.add(a, q)
+				}
+			}
+			for a, q := range d.mint {
+				provided.add(a, q)
+			}
+			if provided[phantom] != nil {
+				return false
+			}
+			d.outputs[o].assets.add(phantom, big.NewInt(qty))
+			return true
 		}})
 	}
 	for tries := 0; tries < 8; tries++ {
@@ -747,6 +813,24 @@ func minimalCases(e lg.Era) []labelled {
 		d = mk()
 		d.mint.add(asset{polP1, "a"}, big.NewInt(4))
 		add("mint", d, wIgnoreMint)
+		// tokens held by the spent input: kept, all dropped, one dropped; alone,
+		// next to a mint of another asset, next to a burn of the same asset
+		d = mk()
+		d.inputs[0].assets.add(asset{polP1, "a"}, big.NewInt(1000))
+		add("input-holds-one-asset", d, wInputAssetsIgnored)
+		d = mk()
+		d.inputs[0].assets.add(asset{polP1, "a"}, big.NewInt(7))
+		d.inputs[0].assets.add(asset{polP1, "b"}, big.NewInt(3))
+		d.inputs[0].assets.add(asset{polP2, ""}, big.NewInt(1))
+		add("input-holds-three-assets", d, wInputAssetsIgnored|wOneInputAssetIgnored)
+		d = mk()
+		d.inputs[0].assets.add(asset{polP1, "a"}, big.NewInt(7))
+		d.mint.add(asset{polP2, "b"}, big.NewInt(5))
+		add("input-asset-and-mint-of-another", d, wInputAssetsIgnored|wIgnoreMint)
+		d = mk()
+		d.inputs[0].assets.add(asset{polP1, "a"}, big.NewInt(7))
+		d.mint.add(asset{polP1, "a"}, big.NewInt(-2))
+		add("input-asset-and-burn-of-the-same", d, wInputAssetsIgnored|wIgnoreMint|wBurnAsMint)
 	}
 	if e >= lg.Conway {
 		for _, k := range []certKind{cReg, cStakeRegDeleg, cVoteRegDeleg, cStakeVoteRegDeleg} {
